@@ -11,6 +11,10 @@ CHECKS = {
             "R-bls reference (pv/ref/bls.py), cost predictor that resamples trees the unchanged implementation cannot answer"),
     "C02": ("reference-model monitor (R-layout) on every type object of generated universes, two build routes compared",
             "R-layout restates the Specification's layout rules; R-bls evaluates the expected sets; cost predictor bounds divisors"),
+    "C06": ("reference-codec monitor (R-codec, independent IEEE-754 and bit packing) on serialize/deserialize + M-bitio shadow writer hooked on the real _BitWriter",
+            "R-codec is the trusted wire-format reference; NaN payloads not compared; serdes-sized capacities"),
+    "C07": ("reference-decoder monitor on hostile byte strings + M-bitio shadow reader (every read_bits vs bounded reference extraction), metamorphic zero-extension/truncation",
+            "R-codec decoder decides accept/reject and the value; serdes-sized capacities"),
 }
 
 NOT_YET = {
